@@ -1,3 +1,4 @@
+#include "src/common/stack_guard.h"
 #include "evaluator/core/evaluator.h"
 #include "../../../../common/debug.h"
 #include "../../../../common/debug_messages.h"
@@ -90,6 +91,10 @@ int64_t ExpressionEvaluator::evaluate_expression(const ASTNode *node) {
 TypedValue ExpressionEvaluator::evaluate_typed_expression(const ASTNode *node) {
     if (!node) {
         return TypedValue(static_cast<int64_t>(0), InferredType());
+    }
+    if (cb_stack_guard::exhausted()) {
+        throw std::runtime_error(
+            "Stack limit reached: expression nesting or recursion too deep");
     }
 
     debug_msg(DebugMsgId::TYPED_EVAL_ENTRY, static_cast<int>(node->node_type));
